@@ -832,7 +832,14 @@ class Normalizer:
                 mapping[first] = recv
             else:
                 if isinstance(recv, ast.Name) and recv.id == 'self':
-                    mapping[first] = ast.Call(func=ast.Name(id='type', ctx=ast.Load()), args=[recv], keywords=[])
+                    # `cls.X` and `self.X` read the same class attribute / call the same class-level method: when the helper
+                    # uses its class only that way, the instance stands for it (keeps the expression resolvable)
+                    attr_only = True
+                    for n in ast.walk(target.node):
+                        for c in ast.iter_child_nodes(n):
+                            if isinstance(c, ast.Name) and c.id == first and not (isinstance(n, ast.Attribute) and n.value is c):
+                                attr_only = False
+                    mapping[first] = recv if attr_only else ast.Call(func=ast.Name(id='type', ctx=ast.Load()), args=[recv], keywords=[])
                 elif recv is not None:
                     mapping[first] = recv
                 else:
